@@ -987,6 +987,14 @@ func init() {
 
 	reg("net/url.Parse", func(fr *frame, a []value) value {
 		i := fr.i
+		if _, ok := a[0].(string); !ok {
+			// contract stub: the error is free; url.Error renders the URL with %q
+			i.stub("net/url.Parse on symbolic text (free error, message quotes the URL)")
+			if i.decide(i.freshBool("url_Parse_err")) {
+				return tuple{(*value)(nil), i.newError(&Rope{[]ropePart{{lit: "parse "}, {verb: "%q", arg: a[0]}, {lit: ": invalid URL"}}})}
+			}
+			return tuple{nativePtr("url"), iface{}}
+		}
 		_, err := url.Parse(mustString(a[0], "url.Parse"))
 		if err != nil {
 			return tuple{(*value)(nil), i.newError(err.Error())}
